@@ -303,7 +303,8 @@ impl Prop for C19 {
                                     let (p, size) = &entries[fault_rng.usize(entries.len())];
                                     let f = rd.join(p);
                                     if let Ok(d) = std::fs::read(&f) {
-                                        let _ = std::fs::write(&f, &d[..(*size as usize / 2)]);
+                                        let _ = size;
+                                        let _ = std::fs::write(&f, &d[..d.len() / 2]);
                                         rep.fire("cache_entry_truncated", 1);
                                     }
                                 }
